@@ -830,6 +830,38 @@ def judge_routes(field, v, routes, entry, problems, stats, compare=True):
                 return
 
 
+class Hang(BaseException):
+    pass
+
+
+def with_watchdog(fn, arg, limit=20):
+    """Run one entry point; a text that keeps it busy for more than `limit` seconds is reported as a hang."""
+    import signal
+
+    def onalarm(signum, frame):
+        where = ''
+        fr = frame
+        while fr is not None:
+            if '/exabgp/' in fr.f_code.co_filename:
+                where = f'{fr.f_code.co_filename.split("/exabgp/", 1)[1]}:{fr.f_lineno}'
+                break
+            fr = fr.f_back
+        raise Hang(where)
+
+    old = signal.signal(signal.SIGALRM, onalarm)
+    signal.alarm(limit)
+    try:
+        return fn(arg)
+    except Hang as h:
+        global _PRT, _RIG
+        _PRT = None
+        _RIG = None
+        return 'X', {'cls': 'hang', 'msg': f'no answer after {limit}s', 'where': str(h)}
+    finally:
+        signal.alarm(0)
+        signal.signal(signal.SIGALRM, old)
+
+
 def judge_text(field, v, texts, stats, compare=True):
     """-> (outcomes per entry point, problems)"""
     problems, outcomes = [], {}
@@ -839,7 +871,7 @@ def judge_text(field, v, texts, stats, compare=True):
         text = texts.get(entry)
         if text is None:
             continue
-        kind, val = {'conf': run_conf, 'prt': run_prt, 'api': run_api}[entry](text)
+        kind, val = with_watchdog({'conf': run_conf, 'prt': run_prt, 'api': run_api}[entry], text)
         outcomes[entry] = kind if kind != 'X' else 'X:' + val['cls']
         stats['texts'] += 1
         stats['outcome_' + kind] += 1
